@@ -37,6 +37,10 @@ def build_bpm_events(res, tempo):
     return chartparse.track.build_events_from_data(BPMEvent, datas, res)
 
 
+TIES = {192: [200000, 40000, 100000, 1000000, 62500], 480: [160000, 32000, 80000, 400000], 100: [128000, 384000, 76800], 960: [80000, 16000, 200000],
+        96: [400000, 80000, 200000], 1000: [64000, 12800, 38400]}  # a tick lasts a whole number of µs plus exactly one half
+
+
 def rand_map(rng, max_seg=6, big=False):
     res = rng.choice([192, 480, 96, 960, 100, 1, 3, 7, 333, 1000, rng.randint(1, 5000), rng.randint(1, 10**6)])
     k = rng.randint(1, max_seg)
@@ -44,7 +48,9 @@ def rand_map(rng, max_seg=6, big=False):
     tempo = []
     for _ in range(k):
         r = rng.random()
-        if r < 0.4:
+        if res in TIES and r < 0.25:
+            n = rng.choice(TIES[res])  # half-microsecond ties: where two ways of writing the same formula part company
+        elif r < 0.4:
             n = rng.choice([120000, 60000, 90000, 200000, 117000, 140500])
         elif r < 0.75:
             n = rng.randint(20000, 400000)
